@@ -167,6 +167,8 @@ def gen(rng, tier, allow_required=False, mod_id='C01'):
                   'strict': rng.random() < 0.4, 'by': by})
     else:
       ops.append({'op': 'query'})
+  if mod_id == 'C01' and not allow_required and rng.random() < 0.25 and ops:
+    ops.insert(rng.randint(0, len(ops)), {'op': 'finalize'})
   case = {'specs': specs, 'ops': ops}
   if rng.random() < 0.34:
     threads = []
@@ -476,19 +478,32 @@ def execute(case, allow_required=False, prefix='C01'):
       key = (op['scope'] + '/' if op['scope'] else '') + op['sel'] + '.' + \
           op['param']
       try:
-        if op['api'] == 'str':
-          gin.bind_parameter(key, copy.deepcopy(op['val']))
-        elif op['api'] == 'tuple':
-          gin.bind_parameter((op['scope'], op['sel'], op['param']),
-                             copy.deepcopy(op['val']))
-        else:
-          gin.parse_config('%s = %r' % (key, op['val']))
+        # (on a finalized configuration bindings are made inside unlock_config)
+        import contextlib
+        with (gin.unlock_config() if gin.config_is_locked()
+              else contextlib.nullcontext()):
+          if op['api'] == 'str':
+            gin.bind_parameter(key, copy.deepcopy(op['val']))
+          elif op['api'] == 'tuple':
+            gin.bind_parameter((op['scope'], op['sel'], op['param']),
+                               copy.deepcopy(op['val']))
+          else:
+            gin.parse_config('%s = %r' % (key, op['val']))
         model.bind(op['scope'], op['full'], op['param'], op['val'])
         log.add('bind', key)
       except Exception as e:  # pylint: disable=broad-except
         v(prefix + '.bind_accepted', [type(e).__name__],
           'bind %s raised %s: %s' % (key, type(e).__name__,
                                      probes.scrub(str(e))[:200]))
+    elif k == 'finalize':
+      # the configuration gets locked in the middle of the history; calls go on
+      # as before and later bindings are made inside unlock_config
+      try:
+        gin.finalize()
+      except Exception:  # pylint: disable=broad-except
+        pass   # e.g. a binding still set to REQUIRED: stays unlocked
+      stats['finalized'] = stats.get('finalized', 0) + int(gin.config_is_locked())
+      log.add('finalize', gin.config_is_locked())
     elif k == 'call':
       spec = w.specs[op['probe']]
       exp = model.expect_call(cm.full_name(spec), op['scope'], op['pos'],
